@@ -299,7 +299,11 @@ def show_guard(g: Term) -> str:
 
 def guard_term(g: Term) -> Term:
     """The condition a guard asserts, as a (negation-normalised) term."""
-    return strip(g[1]) if g[2] else negate(g[1])
+    if g[2]:
+        t = strip(g[1])
+        # `not (a is b)` that came out of a substitution is the comparison `a is not b`
+        return negate(t[1]) if t[0] == "not" and strip(t[1])[0] == "cmp" else t
+    return negate(g[1])
 
 
 # ----------------------------------------------------------------------------- value classes
